@@ -17,10 +17,11 @@ try:
         r = subprocess.run('cargo test --workspace --offline 2>&1 | grep -E "^test result|FAILED|^error" | head -5', shell=True, cwd=d, capture_output=True, text=True, env=dict(os.environ, CARGO_TARGET_DIR='/tmp/mut-target'))
         print(r.stdout)
     for c in checks:
-        r = subprocess.run(['/verif/check', c], capture_output=True, text=True, env=dict(os.environ, VERIF_REPO=d))
+        r = subprocess.run(['/verif/check', c], capture_output=True, text=True, env=dict(os.environ, VERIF_REPO=d, VERIF_OUT=d + '-out'))
         lines = [l for l in r.stdout.splitlines() if l.startswith('  rule') or l.startswith('[') or 'kind=tooling' in l]
         print('\n'.join(l[:260] for l in lines[:8]))
         if r.returncode not in (0, 1) or (r.stderr and 'Traceback' in r.stderr):
             print(r.stderr[-1500:])
 finally:
     subprocess.run(['git', '-C', '/repo', 'worktree', 'remove', '--force', d])
+    shutil.rmtree(d + '-out', ignore_errors=True)
